@@ -600,6 +600,9 @@ class List(list, base.Symbolic, pg_typing.CustomTyping):
     for i in indices:
       old_value = self.sym_getattr(i)
       super().__delitem__(i)
+      # Detach the deleted value from the object tree.
+      if isinstance(old_value, base.TopologyAware):
+        old_value.sym_setparent(None)
       updates.append(
           base.FieldUpdate(
               self.sym_path + i, self,
@@ -736,6 +739,10 @@ class List(list, base.Symbolic, pg_typing.CustomTyping):
     if self._value_spec and self._value_spec.min_size > 0:
       raise ValueError(
           f'List cannot be cleared: min size is {self._value_spec.min_size}.')
+    # Detach the removed values from the object tree.
+    for old_value in self.sym_values():
+      if isinstance(old_value, base.TopologyAware):
+        old_value.sym_setparent(None)
     super().clear()
 
   def sort(self, *, key=None, reverse=False) -> None:
